@@ -10,13 +10,18 @@ EXPLANATION = (
     "without code; KeyboardInterrupt, GeneratorExit, a direct BaseException subclass). CrossHair runs the real "
     "run()/call()/evaluate() and confirms over all paths that, whether the call returned or raised, sys.stdout and "
     "time.sleep are the pre-call objects, the key set of sys.modules is unchanged, and the sandbox's patch and stdout "
-    "stacks are empty; two-step histories additionally show that the next execution captures exactly what it printed.")
+    "stacks are empty; two-step histories additionally show that the next execution captures exactly what it printed. "
+    "Trace function: for each tracer style (none / native / calls / coverage) x entry point the solver enumerates termination x "
+    "nested execution (none / evaluate on the same sandbox / `import helper` through pedal's import hook) x host trace "
+    "function installed or not; the body runs untraced (CrossHair traces through sys.monitoring, so sys.settrace is free) "
+    "and sys.gettrace() afterwards must be the object it was before.")
 FUNCTIONS = ["pedal.sandbox.sandbox.Sandbox._execute/_start_mocking/_stop_mocking/_start_patches/_stop_patches/_capture_exception",
              "Sandbox.run/call/evaluate", "pedal.sandbox.feedbacks.runtime_error"]
 BOUNDS = {"quick": "1 execution: 13 terminations x 3 entry points x text <= 1 char; 2 executions for the 3 BaseException terminations and BadStr x (run,call)",
           "thorough": "2 executions for all 13 terminations x 3 x 3 entry points"}
-OUTSIDE = ["tracer styles (CrossHair owns the trace hook)", "timeouts / threaded mode (C14; threads cannot be executed symbolically)",
-           "nested imports of student files (_import)", "which programs produce which termination"]
+OUTSIDE = ["timeouts / threaded mode (C14; threads cannot be executed symbolically)",
+           "nested imports deeper than one level", "which programs produce which termination",
+           "what the tracers record (only that the trace function is put back)"]
 ASSUMPTIONS = ["exec stub as described", "_start_patches/_stop_patches run untraced (concrete mock.patch bookkeeping)",
                "result_proxy_class = None", "harness undoes leaked patches at the end of each path",
                "internal-fault stub: pedal.sandbox.sandbox.runtime_error raises RuntimeError when the fault flag is set"]
@@ -27,6 +32,9 @@ CANARIES = {'harness/C05_restore.py': 'stub_canary()'}   # harness file -> nativ
 def obligations(tier):
     w = "after run/call/evaluate returns or raises: sys.stdout, time.sleep, sys.modules keys as before; _current_patches == [] == _current_stdout"
     obs = [Ob("C05.restore1", F, "restore1", 600, part="%d,%d" % (e, m), what=w + " (also when pedal's own feedback construction fails, the program closed its stdout, or tampered with sys.modules)") for e in range(3) for m in ((0, 1) if tier == "quick" and e else range(4))]
+    for e in range(3):
+        for st in range(4):
+            obs.append(Ob("C05.restore_trace", F, "restore_trace", 200, part="%d,%d" % (e, st), what="sys.gettrace() after the call is what it was before: tracer style (partition) x termination x nested execution (evaluate / import of another student file) x host trace function present"))
     obs += [
            Ob("C05.restore_reach", F, "restore_reach", 120, expect="refute", what="twin: a BaseException termination propagates out of run()")]
     w2 = w + "; the following normal execution captures exactly its own text"
